@@ -8,6 +8,8 @@ func dispatchMore(cmd string, r *prng, count int, extra string) bool {
 		for i := 0; i < count; i++ {
 			emit(runOrchHistory(newPRNG(r.next()), i))
 		}
+	case "replay":
+		replayFile(extra)
 	case "fuzz-dispatch":
 		runFuzzDispatch(r, count)
 	case "box-conc":
